@@ -3,6 +3,7 @@ import vlib
 from props import common, mix, tim
 
 THM = "NextestModel.Thm.C11"
+THM_EXTRA = ["NextestModel.Thm.C11Term"]
 GEN = ["tables"]
 GEN_GROUPS = ["signals", "sighandler"]
 TRUSTED = ["model: Model/Unit (reaction of each phase to a Shutdown request) and Model/Dispatcher (broadcast to the registered units); signal tables regenerated from unix.rs on every run (shutdown_terminate_method, timeout_terminate_method, job_control_child, every libc::kill addressing -pid)",
